@@ -38,7 +38,7 @@ def run_case(cs, ctx):
         ctx.cov('ncrit_%d' % len(r['opts']['crits']))
         flag_order = [c[0] for c in r['opts']['crits']]
         argv = r['case']['argv']
-        seen = [a[1:] for a in argv if a[1:] in sp.CRITS]
+        seen = [sp.crit_of_flag(a) for a in argv if sp.crit_of_flag(a)]
         if seen != [c[0] for c in sp.ordered_crits(r['opts'])]:
             ctx.cov('flag_order_differs_from_position_order')
         # (iv) metamorphic: permute the flags, same positions
